@@ -169,6 +169,9 @@ inductive Class where
   | clientHeaderForwarded
   /-- the `Impersonate-*` headers differ from the ones the gateway generates for the identity -/
   | impersonationHeaders
+  /-- an impersonation the target cluster refuses was forwarded because the cluster was asked about ANOTHER record: the
+      SubjectAccessReview (JSON) cannot carry a record that is not valid UTF-8 (recorded finding C02-record-not-utf8) -/
+  | recordNotUTF8
   /-- the upstream is told to act as another identity -/
   | identityMismatch
   /-- … differing only by the case of extra keys (the repaired defect C02-extra-key-case, should it return) -/
@@ -183,6 +186,7 @@ def Class.name : Class → String
   | .authorization => "c02.authorization"
   | .clientHeaderForwarded => "c02.client-header-forwarded"
   | .impersonationHeaders => "c02.impersonation-headers"
+  | .recordNotUTF8 => "c02.record-not-utf8"
   | .identityMismatch => "c02.identity-mismatch"
   | .extraKeyCase => "c02.extra-key-case"
   | .valueNotCarried => "c02.value-not-carried"
@@ -212,6 +216,25 @@ def judgeForward (token : Str) (upgrade : Bool) (id : Identity) (recv : Headers)
 def judge (token : Str) (upgrade : Bool) (e : Expect) (upstream : List Headers) : List Class :=
   match e with
   | .answered _ => if upstream.isEmpty then [] else [Class.forwardedUnapproved]
+  | .forward id => upstream.flatMap (judgeForward token upgrade id)
+
+/-! ## the judge against the TARGET CLUSTER's policy -/
+
+/-- every record the request requires is one a SubjectAccessReview carries unchanged (valid UTF-8) -/
+def recordsCarried (raw : List (Str × Str)) : Bool := (requiredRecords raw).all (fun a => jsonAttrs a == a)
+
+/-- The property, judged against what the target cluster answers about the EXACT required records (`policy`), whoever the
+    requestor is: a request the cluster's policy refuses must not be forwarded. The one recorded deviation is named: the
+    cluster would have allowed the records as JSON carries them. -/
+def judgeCluster (token : Str) (upgrade : Bool) (raw : List (Str × Str)) (auth : Option Identity)
+    (policy : Attrs → Decision) (upstream : List Headers) : List Class :=
+  match expectedFor raw auth policy with
+  | .answered s =>
+    if upstream.isEmpty then []
+    else match expectedFor raw auth (fun a => policy (jsonAttrs a)) with
+      | .forward id => if s = 403 then Class.recordNotUTF8 :: upstream.flatMap (judgeForward token upgrade id)
+                       else [Class.forwardedUnapproved]
+      | .answered _ => [Class.forwardedUnapproved]
   | .forward id => upstream.flatMap (judgeForward token upgrade id)
 
 /-- what the upstream received, as the judge takes it -/
